@@ -114,6 +114,9 @@ func TestC17(t *testing.T) {
 			cf := writeCfg(d, map[string]any{"mode": "raw", "envDumpTo": filepath.Join(d, "env.json"), "after": "exit"})
 			cfg.Cmd = exec.Command(pluginBin, cf)
 			cfg.Cmd.Env = append([]string(nil), p.UserEnv...)
+			if p.UserEnvHost {
+				cfg.Cmd.Env = append(os.Environ(), p.UserEnv...)
+			}
 		}
 		cl := plugin.NewClient(cfg)
 		_, err := cl.Start()
